@@ -23,7 +23,8 @@ ENUM_RULE = (
     "(patterns of length <=2, lists of <=2 (quick) / <=3 (thorough) patterns, haystacks of length <=4 / <=5), each "
     "configuration built case-sensitive and case-insensitive; plus seeded structured-random pattern "
     "lists (alphabets from letters in both cases, @ [ ` { , NUL, 0x80 0xC1 0xE1 0xFF; prefix/suffix/infix/duplicate/"
-    "case-variant closure; empty pattern; occasionally 30-130 patterns or a 200-600 byte pattern) x random "
+    "case-variant closure; empty pattern; occasionally 30-130 patterns or a 200-600 byte pattern; every fourth list "
+    "is aimed at a prefilter variant, with injected duplicates and sometimes grown to 21-64 patterns) x random "
     "configurations (kind, start kind, dense depth, byte classes, prefilter, case-insensitivity) x pattern-derived "
     "haystacks x random spans. "
 )
@@ -84,7 +85,9 @@ PROPS = {
         "level": "exploration",
         "design_ref": "DESIGN.md section 5, C13",
         "rule": "complete enumeration of match kind (3) x start kind (3) x requested anchoring (2) x automaton kind "
-                "(auto + 3 explicit) x the 21 public search entry points of AhoCorasick, for 6 fixed pattern lists "
+                "(auto + 3 explicit) x the 21 public search entry points of AhoCorasick plus two call histories "
+                "(find_overlapping / try_find_overlapping on an OverlappingState that accepted warm-up calls have "
+                "already advanced), for 6 fixed pattern lists "
                 "(no patterns, with/without the empty pattern, suffix-closed) plus seeded random lists, x several "
                 "haystacks and spans (including the empty haystack and the start=end+1 span). Each call is "
                 "classified accepted / error value / panic / late failure of a constructed iterator and compared "
@@ -451,7 +454,8 @@ PROPS.update({
         "design_ref": "DESIGN.md section 5, C20",
         "rule": "collection shapes (no patterns; only empty patterns; duplicates; all 256 single bytes; 256 children "
                 "below one node; 99-130 patterns; thousands of random patterns; 200-600 byte patterns; all byte values "
-                "inside longer patterns; empty pattern mixed in; structured random) x 10 random builder configurations "
+                "inside longer patterns; empty pattern mixed in; one wide node whose fan-out sweeps 1-9, 64, 125-131, 252-256; "
+                "structured random) x 10 random builder configurations "
                 "each (7 ways of building x match kind x start kind x case folding x prefilter x dense_depth "
                 "0/1/2/5/1000 x byte classes). Each build runs under catch_unwind and must return Ok; then "
                 "patterns_len, min/max_pattern_len (non-empty collections), match_kind, start_kind, an explicitly "
